@@ -43,6 +43,17 @@ CLAIMED = {
         "domain: OIDs with >= 2 arcs, arc0 <= 2, arc1 < 40 (x690 packs the first two arcs into one octet); datagrams < 256^126 "
         "octets; digest octets and ciphertext are taken from the wire (C10, C11)",
     ),
+    "C06": (
+        "proof (partial): a value TLV of any SNMP base/application type or exception marker, written in ANY admissible definite "
+        "length form (minimal, long form with 1..126 octets, non-minimal) anywhere in a datagram, is found by the index-based "
+        "x690 mirror with exactly its content, dispatched to the registered class (generated registry, signedness included) and "
+        "decoded to the value the specification reader reads from the same octets; unsigned classes never negative; integer / OID "
+        "codec round trips for all integers and all OIDs of the domain; re-encoded TLVs read as the same content. Binding lists, "
+        "PDUs, scoped PDUs, USM blocks and messages are tied by correspondence (model tree vs x690 on all five forms) and by "
+        "re-encoding checks against the independent reader",
+        "domain: OID content starting with an octet < 120; unsigned application integers in proper non-negative encoding for "
+        "equality with the RFC value; the sequence / PDU level decode theorems are not yet proved (correspondence only)",
+    ),
     "C07": (
         "proof: id in the request = id validated for every operation and clock value; accepted => ids equal; mismatch => "
         "InvalidResponseId / never a result; echo accepted (v1/v2c/v3); foreign community/version refused; tied by correspondence "
